@@ -88,13 +88,19 @@ fn payload_for(seq: u64) -> Vec<u8> {
 }
 
 pub fn build(rx: Rx, base: u64, offsets: &[u64]) -> Result<ReplayWorld, Violation> {
+    build_with(rx, base, offsets, false)
+}
+
+/// `lossy`: client 1's handshake ran over a path that delayed the server's first keep-alive (the client repeated its response)
+pub fn build_with(rx: Rx, base: u64, offsets: &[u64], lossy: bool) -> Result<ReplayWorld, Violation> {
     let public = vec![server_addr(0)];
     let mut server = new_server(4, public.clone(), Duration::ZERO);
     let t1 = make_token(&TokenSpec::new(1, 11, public.clone()));
     let t2 = make_token(&TokenSpec::new(2, 22, public.clone()));
     let mut c1 = new_client(Duration::ZERO, &t1);
     let mut c2 = new_client(Duration::ZERO, &t2);
-    if !nc::connect(&mut server, &mut c1, client_addr(1))? || !nc::connect(&mut server, &mut c2, client_addr(2))? {
+    let ok1 = if lossy { nc::connect_lossy(&mut server, &mut c1, client_addr(1))? } else { nc::connect(&mut server, &mut c1, client_addr(1))? };
+    if !ok1 || !nc::connect(&mut server, &mut c2, client_addr(2))? {
         return Err(Violation::new("C04/fixture-handshake-failed", "honest handshakes did not complete on a perfect network".to_string()));
     }
     // genuine packets can only carry sequence numbers the sender has not used yet
@@ -329,6 +335,10 @@ pub fn parts(tier: Tier) -> Vec<(String, Rx, u64, Vec<u64>, u32)> {
             v.push((format!("{:?} base 2^64-600", rx), rx, u64::MAX - 600, small.clone(), 5));
         }
     }
+    // sessions whose handshake ran over a lossy path (repeated response, late first keep-alive)
+    for rx in [Rx::Server, Rx::Client] {
+        v.push((format!("{:?} base 0 after a lossy handshake", rx), rx, 0u64, vec![0, 1, 2, 3, 255, 256, 257], tier.pick(4, 6)));
+    }
     v
 }
 
@@ -337,7 +347,7 @@ pub fn run(tier: Tier) -> i32 {
     rep.rule("M1: every history up to length L over {deliver the genuine payload packet with sequence s (a second occurrence is the replay)} and, in one slot per history, {a tampered copy: prefix type/length bit, sequence bit, ciphertext bit, MAC bit, truncated by 1/16, extended by 1, from another connected client's address, sealed under another session's keys, sealed under another protocol id}, for sequence alphabets at the window boundaries (s, s+-255/256, multiples of 256) at bases 0, 2^32-256 (+2^56, 2^64-600), against both receivers (NetcodeServer::process_packet, NetcodeClient::process_packet) of a connected session; oracle = reference window: non-authentic surfaces nothing and leaves the anti-replay state (hook digest) unchanged; genuine surfaces at most once, byte-identical, attributed to the peer's id, and must surface when fresh and < 256 behind the highest accepted");
     rep.assume("ChaCha20-Poly1305 itself is trusted; genuine datagrams are produced by the peer's real generate_payload_packet with its send counter placed by a hook setter");
     for (k, (name, rx, base, offs, d)) in parts(tier).into_iter().enumerate() {
-        match build(rx, base, &offs) {
+        match build_with(rx, base, &offs, name.contains("lossy")) {
             Err(v) => rep.violation(&name, v, J::obj().set("kind", J::s("fixture"))),
             Ok(w) => {
                 let cfg = DfsCfg { depth: d, threads: explore::threads(), wall_cap_s: tier.pick(100.0, 1500.0), max_signatures: 8 };
@@ -361,7 +371,7 @@ pub fn replay(j: &J) -> i32 {
     let idx = j.get("scenario_index").and_then(|x| x.as_i()).unwrap_or(0) as usize;
     let Some((name, rx, base, offs, _)) = parts(tier).into_iter().nth(idx) else { return 2 };
     println!("part {}", name);
-    let mut w = match build(rx, base, &offs) {
+    let mut w = match build_with(rx, base, &offs, name.contains("lossy")) {
         Ok(w) => w,
         Err(v) => {
             println!("RESULT: violation {} — {}", v.signature, v.message);
